@@ -7,7 +7,7 @@ from dataclasses import dataclass
 from typing import Dict, List, Optional, Set, Tuple
 
 from ..cfg import CFG, Flow, Node, build_cfg
-from ..core import (AnalysisError, ClassInfo, FuncInfo, Index, Result, call_name, call_recv,
+from ..core import (seq, AnalysisError, ClassInfo, FuncInfo, Index, Result, call_name, call_recv,
                     const_str, dotted, iter_calls, norm_stmt, src, walk_no_nested)
 from ..util import (const_int, implied, is_none_or_false, make_response_status, params,
                     single_assignments, str_consts_in)
@@ -101,7 +101,7 @@ def collect_routes(idx: Index, res: Result) -> List[Route]:
 
     in_table_loop: Set[int] = set()
     for fi in idx.all_funcs("BPTK_Py/"):
-        stmts = sorted([n for n in walk_no_nested(fi.node) if isinstance(n, ast.stmt)], key=lambda n: (n.lineno, n.col_offset))
+        stmts = sorted([n for n in walk_no_nested(fi.node) if isinstance(n, ast.stmt)], key=seq)
         for stmt in stmts:
             if isinstance(stmt, ast.For) and isinstance(stmt.iter, (ast.List, ast.Tuple)):
                 # for path, methods, handler in [ (..), ... ]: self.route(path, methods=methods)(handler)
@@ -382,6 +382,7 @@ def _c15_gate(idx: Index, res: Result) -> None:
             tgts = n.targets
         elif isinstance(n, (ast.AugAssign, ast.AnnAssign)):
             tgts = [n.target]
+        tgts = [x for t in tgts for x in (t.elts if isinstance(t, (ast.Tuple, ast.List)) else [t])]
         for t in tgts:
             root = t
             while isinstance(root, (ast.Attribute, ast.Subscript)):
@@ -538,7 +539,7 @@ def _trivially_total(fi: FuncInfo) -> bool:
     for n in walk_no_nested(fi.node):
         if isinstance(n, (ast.Raise, ast.Assert, ast.Delete, ast.For, ast.While, ast.With, ast.Try)):
             return False
-        if isinstance(n, ast.Call) and call_name(n) not in ("keys",):
+        if isinstance(n, ast.Call) and call_name(n) not in ("keys", "get", "setdefault"):
             return False
     return True
 
@@ -598,7 +599,9 @@ def check_c18(idx: Index, tier: str, res: Result) -> None:
                   api[nme].loc(), "bptk." + nme, "session_state['lock']",
                   "bptk.%s does not store %s into the lock flag" % (nme, val), key="API/bptk.%s/flag" % nme)
     rd = [n for n in walk_no_nested(api["is_locked"].node) if isinstance(n, ast.Return)
-          and isinstance(n.value, ast.Subscript) and const_str(n.value.slice) == "lock"]
+          and ((isinstance(n.value, ast.Subscript) and const_str(n.value.slice) == "lock") or
+               (isinstance(n.value, ast.Call) and call_name(n.value) == "get" and n.value.args and const_str(n.value.args[0]) == "lock"
+                and (len(n.value.args) == 1 or is_none_or_false(n.value.args[1]))))]
     res.check("TYPESTATE", "bptk.is_locked returns session_state['lock']", bool(rd), api["is_locked"].loc(),
               "bptk.is_locked", "return", "is_locked does not return the lock flag", key="API/bptk.is_locked/flag")
 
@@ -840,6 +843,35 @@ def check_c17(idx: Index, tier: str, res: Result) -> None:
         raise AnalysisError("expected exactly one expiry comparison in _timeout_instances, found %d" % len(found))
     ifn, cmp_, acc = found[0]
     op = type(cmp_.ops[0])
+    # which outcome of the test leads to the destroy/removal?  (guard clauses: `if now < expires: continue` ... destroy)
+    scfg = build_cfg(sweep.node, sweep.qual)
+
+    def is_destroy(a_):
+        return a_ is not None and any(call_name(c) == "destroy" for c in iter_calls(a_))
+
+    def is_remove(a_):
+        return a_ is not None and (any(call_name(c) in ("pop", "_delete_instance") for c in iter_calls(a_)) or
+                                   (isinstance(a_, ast.Delete) and any("_instances" in src(t) for t in a_.targets)))
+
+    def tr_out(node: Node, fact, label):
+        if node.kind == "iter" and label == "loop":
+            return [(None, False)]                   # a new instance: nothing decided, nothing destroyed yet
+        outcome, destroyed = fact
+        if node.kind == "test" and node.ast is ifn.test and label in ("true", "false"):
+            outcome = label == "true"
+        if node.kind == "stmt" and label != "exc" and is_destroy(node.ast):
+            destroyed = True
+        return [(outcome, destroyed)]
+    sflow = Flow(scfg, [(None, False)], tr_out)
+    d_nodes = [nd for nd in scfg.nodes if nd.kind == "stmt" and is_destroy(nd.ast)]
+    r_nodes = [nd for nd in scfg.nodes if nd.kind == "stmt" and is_remove(nd.ast)]
+    outcomes = {f[0] for nd in (d_nodes + r_nodes) for f in sflow.at[nd.id]}
+    if outcomes == {False}:
+        op = {ast.GtE: ast.Lt, ast.Lt: ast.GtE, ast.Gt: ast.LtE, ast.LtE: ast.Gt}.get(op, op)     # reached on the false edge: negate
+    elif outcomes - {True}:
+        res.find("EXPIRY", "EXPIRY/_timeout_instances/unconditional", sweep.loc(cmp_), sweep.qual, src(cmp_),
+                 "an instance can be destroyed/removed by the sweep without the expiry test %s deciding it (outcomes on the paths to the "
+                 "removal: %s)" % (src(cmp_), sorted(map(str, outcomes))))
     if acc.get("NOW", 0) < 0:           # normalise to NOW positive
         acc = {k: -v for k, v in acc.items()}
         op = {ast.GtE: ast.LtE, ast.LtE: ast.GtE, ast.Gt: ast.Lt, ast.Lt: ast.Gt}.get(op, op)
@@ -861,23 +893,14 @@ def check_c17(idx: Index, tier: str, res: Result) -> None:
               "; ".join(src(c) for c in tds), "no timedelta(**<instance>['timeout']) in the sweep",
               key="EXPIRY/_timeout_instances/timeout-source")
     # expiry branch: destroy() then removal
-    body = ifn.body
-    order = []
-    for st in body:
-        for c in iter_calls(st):
-            if call_name(c) == "destroy":
-                order.append("destroy")
-            if call_name(c) in ("pop", "_delete_instance") :
-                order.append("remove")
-        if isinstance(st, ast.Delete) and any("_instances" in src(t) for t in st.targets):
-            order.append("remove")
-    res.check("EXPIRY", "expired instance is destroyed", "destroy" in order, sweep.loc(ifn), sweep.qual, norm_stmt(ifn)[:120],
+    res.check("EXPIRY", "expired instance is destroyed", bool(d_nodes), sweep.loc(ifn), sweep.qual, norm_stmt(ifn)[:120],
               "the expiry branch does not call destroy() on the instance: its resources are never released",
               key="EXPIRY/_timeout_instances/no-destroy")
-    res.check("EXPIRY", "expired instance is removed", "remove" in order, sweep.loc(ifn), sweep.qual, norm_stmt(ifn)[:120],
+    res.check("EXPIRY", "expired instance is removed", bool(r_nodes), sweep.loc(ifn), sweep.qual, norm_stmt(ifn)[:120],
               "the expiry branch does not remove the instance from the table", key="EXPIRY/_timeout_instances/no-remove")
-    if "destroy" in order and "remove" in order:
-        res.check("EXPIRY", "destroy() precedes removal", order.index("destroy") < order.index("remove"), sweep.loc(ifn),
+    if d_nodes and r_nodes:
+        undestroyed = [nd for nd in r_nodes if any(not f[1] for f in sflow.at[nd.id])]
+        res.check("EXPIRY", "destroy() precedes removal", not undestroyed, sweep.loc(ifn),
                   sweep.qual, norm_stmt(ifn)[:120], "the instance is removed before destroy() is called",
                   key="EXPIRY/_timeout_instances/order")
     # the sweep visits every instance
@@ -1022,8 +1045,12 @@ def check_c17(idx: Index, tier: str, res: Result) -> None:
     ok = False
     for rdict in recs:
         m = {const_str(k): v for k, v in zip(rdict.keys, rdict.values)}
-        ok = isinstance(m["timeout"], ast.Name) and m["timeout"].id == "timeout" and isinstance(m["time"], ast.Call) \
-            and call_name(m["time"]) in ("now", "utcnow")
+        from ..util import deref
+        tv = m["timeout"]
+        is_units = tv is d or (isinstance(tv, ast.Name) and any(isinstance(a_, ast.Assign) and a_.value is d and isinstance(a_.targets[0], ast.Name)
+                                                                 and a_.targets[0].id == tv.id for a_ in walk_no_nested(create.node)))
+        tm = deref(create.node, m["time"])
+        ok = is_units and isinstance(tm, ast.Call) and call_name(tm) in ("now", "utcnow")
     res.check("UNITS", "instance record = {instance, time: now(), timeout: timeout}", ok, create.loc(), create.qual,
               "instance_data", "create_instance does not store the timeout dict and the creation time in the instance record",
               key="UNITS/create_instance/record")
@@ -1186,7 +1213,11 @@ def check_c16(idx: Index, tier: str, res: Result) -> None:
         fi = im.methods[name][-1]
         st = [n for n in walk_no_nested(fi.node) if isinstance(n, ast.Assign) and isinstance(n.targets[0], ast.Subscript)
               and dotted(n.targets[0].value) == "self._instances"]
-        ok = len(st) == 1 and src(st[0].targets[0].slice) == "instance_uuid" and src(st[0].value) == "instance_data"
+        from ..util import deref
+        # the value stored is the record built in this function (directly or through a named intermediate)
+        stored = deref(fi.node, st[0].value) if st else None
+        is_record = isinstance(stored, ast.Dict) and "instance" in [const_str(k) for k in stored.keys]
+        ok = len(st) == 1 and src(st[0].targets[0].slice) == "instance_uuid" and is_record
         res.check("FACTORY", "%s stores the record under its own id" % name, ok, fi.loc(), fi.qual, norm_stmt(st[0]) if st else "",
                   "%s stores the record as %s" % (name, norm_stmt(st[0]) if st else "?"), key="FACTORY/%s/store" % name)
     cr = im.methods["create_instance"][-1]
@@ -1312,12 +1343,12 @@ def check_c16(idx: Index, tier: str, res: Result) -> None:
         for pn, dv in defaults.items():
             if not isinstance(dv, (ast.Dict, ast.List)):
                 continue
-            rebinds = [n.lineno for n in walk_no_nested(fi.node) if isinstance(n, ast.Assign) and isinstance(n.targets[0], ast.Name) and n.targets[0].id == pn]
+            rebinds = [seq(n) for n in walk_no_nested(fi.node) if isinstance(n, ast.Assign) and isinstance(n.targets[0], ast.Name) and n.targets[0].id == pn]
             first_rebind = min(rebinds) if rebinds else 10 ** 9
             writes = [n for n in walk_no_nested(fi.node) if isinstance(n, ast.Assign) and isinstance(n.targets[0], ast.Subscript)
-                      and isinstance(n.targets[0].value, ast.Name) and n.targets[0].value.id == pn and n.lineno < first_rebind]
+                      and isinstance(n.targets[0].value, ast.Name) and n.targets[0].value.id == pn and seq(n) < first_rebind]
             stored = [n for n in walk_no_nested(fi.node) if isinstance(n, ast.Dict) and any(isinstance(v, ast.Name) and v.id == pn for v in n.values)
-                      and n.lineno < first_rebind]
+                      and seq(n) < first_rebind]
             if writes and pn == "series_names":
                 res.note("%s(%s=%s) is written in place (%s): a process-wide rename table; it only affects the 'df' return format, "
                          "which no REST handler uses" % (qual, pn, src(dv), norm_stmt(writes[0])[:50]))
